@@ -86,6 +86,12 @@ CLAIMED = {
         technique="call-site table extraction from MIR (argument constants, receiver provenance, dominating condition, consumer edge kind)",
         design_ref="DESIGN.md section 4 C24",
     ),
+    "C25": dict(
+        level="other",
+        text="Thin structural skeleton of schedule computation: instruction_duration_seconds has an explicit arm with the documented duration rule for exactly the instruction kinds the default handler schedules (sibling-table agreement with role / is_scheduled); the topological-traversal filter and the predecessor filter of as_schedule test the same edge kind (Scheduled); exactly one item is pushed and one end time recorded per timed node with end = fold(max of predecessor ends, from zero) + duration. ASAP-ness, exclusivity and span unions are numeric properties of run-time graphs and are not decided.",
+        technique="sibling-table agreement (HIR arms / syn) + call-site skeleton checks over MIR",
+        design_ref="DESIGN.md section 4 C25",
+    ),
     "C26": dict(
         level="other",
         text="Table agreement for the default frame rules: default_frame_match_condition (no catch-all) constructs, per Instruction variant, exactly the condition kinds of the Quil-T rules for used and blocked (blocked depends on the blocking flag); each condition kind is evaluated with the right quantifier in get_matching_keys_for_condition; FrameSet::filter removes used frames from blocked; and, at the type level, the region signatures of matching_frames / filter / get_matching_keys_for_condition tie the returned frame references to the program's FrameSet borrow and not to the instruction, so reported frames are the program's own. Set contents for concrete frame sets are not decided.",
